@@ -9,6 +9,7 @@ pub mod condvar;
 pub mod mutex;
 pub mod park;
 pub mod rwlock;
+pub mod scope;
 pub mod sem;
 pub mod spawn;
 pub mod timed;
@@ -30,6 +31,7 @@ pub const FAMILIES: &[Family] = &[
     Family { name: "rwlock", runtime: true, max_steps: 300_000, run: rwlock::run },
     Family { name: "cancel", runtime: true, max_steps: 300_000, run: cancel::run },
     Family { name: "park", runtime: true, max_steps: 300_000, run: park::run },
+    Family { name: "scope", runtime: true, max_steps: 300_000, run: scope::run },
     Family { name: "spawn", runtime: true, max_steps: 400_000, run: spawn::run },
 ];
 
@@ -61,6 +63,13 @@ fn chan_c07(g: &GenCfg) -> BoxedStrategy<Case> {
 }
 
 pub const PROPS: &[Prop] = &[
+    Prop {
+        id: "C14",
+        quick: 6000,
+        thorough: 200_000,
+        rule: "scope family: an owner (thread or coroutine) runs coroutine::scope with 1-4 children (optionally with nested scopes and grandchildren), or join! inside a select arm of a cqueue scope (the arm is cancelled when the competing arm fires after a generated delay), or a cqueue scope with looping arms; children run 1-6 steps of yield/sleep/park_timeout and touch a frame borrowed from the owner; faults: the owner panics in the scope body after spawning, the owner is cancelled after a generated delay, a child panics; generated schedule. Non-trivial = the fault hit the owner (or the select arm) while at least one child was unfinished. Distinct = distinct hash of (program, config, schedule).",
+        units: &[Unit { fam: "scope", label: "scope", share: 1, strategy: scope::strategy }],
+    },
     Prop {
         id: "C01",
         quick: 6000,
